@@ -174,7 +174,39 @@ func instrument(p pkgInfo, overlay map[string]string, stats map[string]int) {
 				}
 			}
 		}
+		// map element writes (m[k] = v, m[k]++, delete(m, k)) count as writes of the map object m
+		mapWrite := map[ast.Node]bool{}
+		ast.Inspect(f, func(x ast.Node) bool {
+			mark := func(e ast.Expr) {
+				if ix, ok := e.(*ast.IndexExpr); ok {
+					if tv, ok := info.Types[ix.X]; ok && tv.Type != nil {
+						if _, isMap := tv.Type.Underlying().(*types.Map); isMap {
+							mapWrite[ix.X] = true
+						}
+					}
+				}
+			}
+			switch st := x.(type) {
+			case *ast.AssignStmt:
+				for _, l := range st.Lhs {
+					mark(l)
+				}
+			case *ast.IncDecStmt:
+				mark(st.X)
+			case *ast.CallExpr:
+				if id, ok := st.Fun.(*ast.Ident); ok && (id.Name == "delete" || id.Name == "clear") && len(st.Args) >= 1 {
+					mapWrite[st.Args[0]] = true
+				}
+			case *ast.GoStmt:
+				pos := fset.Position(st.Pos())
+				fmt.Printf("NOTE go statement at %s:%d: goroutines started by the code under test are not scheduled by the explorer\n", names[i], pos.Line)
+			}
+			return true
+		})
 		isWritePos := func(c *astutil.Cursor) bool {
+			if mapWrite[c.Node()] {
+				return true
+			}
 			switch par := c.Parent().(type) {
 			case *ast.AssignStmt:
 				return c.Name() == "Lhs" && par.Tok != token.DEFINE
